@@ -225,7 +225,7 @@ def dense(v):
     return [m[x] for x in v]
 
 
-def shrink(pool, group, cls, budget=40):
+def shrink(pool, group, cls, budget=40, wall=60.0):
     """Greedy structural minimisation preserving the violation class.  group has >= 1 cases; the
     failing one is the last."""
     def fails(g):
@@ -244,7 +244,9 @@ def shrink(pool, group, cls, budget=40):
         if fails(g):
             cur = g
     rounds = 0
-    while rounds < budget:
+    import time as _t
+    t0 = _t.time()
+    while rounds < budget and _t.time() - t0 < wall:
         rounds += 1
         case = cur['cases'][-1]
         n = len(case['X'])
@@ -305,7 +307,7 @@ def shrink(pool, group, cls, budget=40):
         better = [g for g, f in zip(ok_groups, results) if f]
         if not better:
             break
-        better.sort(key=lambda g: (len(g['cases'][-1]['X']), sum(g['cases'][-1]['X']) + sum(g['cases'][-1]['Y']), len(json.dumps(g['cases'][-1]))))
+        better.sort(key=lambda g: (len(g['cases'][-1]['X']), sum(g['cases'][-1]['X']) + sum(g['cases'][-1]['Y'])))
         cur = better[0]
     return cur
 
